@@ -263,7 +263,7 @@ theorem checkSession_one_segment (buf : Bytes) (limit : Nat) (mode : CMode) (s :
     simp only
     rw [go_eq _ ops _ [] [] hno hnp, hf0]
     simp
-  obtain ⟨m, mc, d, aF, hf, hd, hw⟩ := segment_reduces_to_audit (fun _ _ => mac.getD []) hmac buf limit s hnew hlim
+  obtain ⟨m, mc, d, aF, hf, hd, hw, _⟩ := segment_reduces_to_audit (fun _ _ => mac.getD []) hmac buf limit s hnew hlim
     mode ops (fun op h => (ht op h).1) (fun op h => (ht op h).2.1) hr hv
     (fun op h => ⟨hno op h, (ht op h).2.2⟩) hml mc0
     (fun m' mc' hf' => by
@@ -279,6 +279,64 @@ theorem checkSession_one_segment (buf : Bytes) (limit : Nat) (mode : CMode) (s :
   refine ⟨m0, d, aF, by rw [hrun], hd, fun haud => ?_⟩
   rw [hrun]
   simp only [List.nil_append]
+  unfold Message.checkSession
+  simp only [contains_panic_false ops _ hnp, Bool.false_eq_true, if_false, hd, hw, haud]
+
+/-- **`checkSession` accepts every session without `clear_rrs`**: on what the driver's observer
+    records from the model — status strings, the finished message, the MAC — the specification's
+    judge returns `"ok"`; nothing is assumed about the pointer audit -/
+theorem checkSession_no_clear (buf : Bytes) (limit : Nat) (mode : CMode) (s : State) (ops : List Op)
+    (mac : Option (List UInt8)) (hnew : Writer.new buf limit = .ok s)
+    (hr : Respects { w := { s with mode := mode } } ops) (ht : ∀ op ∈ ops, ApiTyped op) (hlim : limit ≤ 65535)
+    (hv : ∀ v, Op.setLimit v ∈ ops → v ≤ 65535) (hmac : MacLenOK (fun _ _ => mac.getD []))
+    (hno : ∀ op ∈ ops, op ≠ .clearRrs)
+    (hsz : ∀ ts, (run { w := { s with mode := mode } } ops).1.w.tsig = some ts → isUnsigned ts.mode = false →
+      (mac.getD []).length = (toATsig ts).macLen) :
+    Message.checkSession buf.size limit (Driver.toSpecMode mode) (ops.map Driver.toSpecOp)
+      (Driver.runModel { w := { s with mode := mode } } ops mac true).statuses
+      ((Driver.runModel { w := { s with mode := mode } } ops mac true).pre ++
+        (Driver.runModel { w := { s with mode := mode } } ops mac true).msg.toList)
+      (Driver.runModel { w := { s with mode := mode } } ops mac true).mac = "ok" := by
+  have hI0 : I { s with mode := mode } := (safe_setMode mode s (new_i buf limit s hnew)).2
+  obtain ⟨hnp, hIR⟩ := run_I { w := { s with mode := mode } } ops hI0 hr
+  have hml : ∀ m mc ts, finish (run { w := { s with mode := mode } } ops).1.w (fun _ _ => mac.getD []) = .ok (m, mc) →
+      (run { w := { s with mode := mode } } ops).1.w.tsig = some ts → (mc.getD []).length = (toATsig ts).macLen := by
+    intro m mc ts hf hts
+    obtain ⟨h1, h2⟩ := finish_mac_shape _ _ ts hts m mc hf
+    cases hu : isUnsigned ts.mode with
+    | true =>
+      rw [h1 hu]
+      cases hm : ts.mode with
+      | unsigned n => simp [toATsig, hm, Message.ATsig.macLen]
+      | request a k => rw [hm] at hu; cases hu
+      | response a x k => rw [hm] at hu; cases hu
+      | subsequent a x k => rw [hm] at hu; cases hu
+    | false =>
+      obtain ⟨msg, hmc⟩ := h2 hu
+      rw [hmc]
+      exact hsz ts hts hu
+  obtain ⟨m0, mc0, hf0⟩ := finish_ok (fun _ _ => mac.getD []) hmac _ hIR
+  have hrun : Driver.runModel { w := { s with mode := mode } } ops mac true =
+      ⟨obs { w := { s with mode := mode } } ops ++ ["ok"], some m0, mc0, []⟩ := by
+    unfold Driver.runModel
+    simp only
+    rw [go_eq _ ops _ [] [] hno hnp, hf0]
+    simp
+  obtain ⟨m, mc, d, aF, hf, hd, hw, haud⟩ := segment_reduces_to_audit (fun _ _ => mac.getD []) hmac buf limit s hnew hlim
+    mode ops (fun op h => (ht op h).1) (fun op h => (ht op h).2.1) hr hv
+    (fun op h => ⟨hno op h, (ht op h).2.2⟩) hml mc0
+    (fun m' mc' hf' => by
+      rw [hf0] at hf'
+      simp only [Out.ok.injEq, Prod.mk.injEq] at hf'
+      rw [← hf'.2]
+      cases mc0 with
+      | none => exact Or.inl rfl
+      | some x => exact Or.inr rfl)
+  rw [hf0] at hf
+  simp only [Out.ok.injEq, Prod.mk.injEq] at hf
+  obtain ⟨rfl, rfl⟩ := hf
+  rw [hrun]
+  simp only [List.nil_append, Option.toList]
   unfold Message.checkSession
   simp only [contains_panic_false ops _ hnp, Bool.false_eq_true, if_false, hd, hw, haud]
 
